@@ -109,7 +109,7 @@ Proof. intros F3. unfold of_cfg. rewrite (run_fresh f k _ _ _ a tl F3). reflexiv
 (* ---- the three ways this has failed / fails *)
 Definition c0 : config := {| c_args := (Some 1, Some 2); c_so := 4; c_oo := 6 |}%Z.
 
-(* the code as it is (f_rebind = false): `solver.options = {"norm_tol": v}` leaves
+(* before /repo c83a966 (f_rebind = false): `solver.options = {"norm_tol": v}` left
    MCIntegrator with the old options object *)
 Lemma setter_leaves_old_options :
   v_so (fst (run cur_flags (after cur_flags (of_cfg KMC c0) [ESetDict (Some 9%Z) None])
